@@ -1111,6 +1111,6 @@ func init() {
 	register("C07", histProp(map[string]int{"quick": 1200, "thorough": 80000}, Knobs{
 		Clients: [2]int{1, 2}, Peers: [2]int{2, 5}, Steps: [2]int{15, 35}, V6: 15,
 		TimeoutSets: [][3]time.Duration{{0, 0, 4 * time.Hour}, {30 * time.Second, 2 * time.Minute, 4 * time.Hour}, {2 * time.Minute, 30 * time.Second, 4 * time.Hour}, {7 * time.Minute, 20 * time.Minute, 4 * time.Hour}, {20 * time.Minute, 7 * time.Minute, 4 * time.Hour}, {40 * time.Second, 0, 4 * time.Hour}, {0, 45 * time.Second, 4 * time.Hour}},
-		Lifetimes:   []int64{-1, 3599}, W: weights(map[string]int{"allocate": 1, "refresh": 2, "refresh0": 0, "perm": 8, "chan": 8, "probe": 12, "data": 3, "time": 2, "twins": 2}),
+		Lifetimes:   []int64{-1, 3599, 3599, 90, 400}, W: weights(map[string]int{"allocate": 1, "refresh": 4, "refresh0": 0, "perm": 8, "chan": 8, "probe": 12, "data": 3, "time": 2, "twins": 2}),
 	}))
 }
